@@ -25,10 +25,11 @@ import (
 )
 
 type lifeMember struct {
-	id     string
-	owner  int
-	topics []string
-	joined bool
+	id       string
+	owner    int
+	topics   []string
+	userData []byte // as decoded from the member's real JoinGroup metadata (RackAffinity: its rack)
+	joined   bool
 }
 
 type lifeCoord struct {
@@ -119,6 +120,7 @@ func (c *lifeCoord) handle(call kafka.VerifCoordCall) kafka.VerifCoordReply {
 		}
 		m := c.members[id]
 		m.topics = call.Topics
+		m.userData = call.UserData
 		if len(call.Protocols) > 0 {
 			c.protocol = call.Protocols[0]
 		}
@@ -154,7 +156,7 @@ func (c *lifeCoord) handle(call kafka.VerifCoordCall) kafka.VerifCoordReply {
 				c.roster = nil
 				for _, xid := range ids {
 					x := c.members[xid]
-					c.roster = append(c.roster, kafka.VerifGroupMember{ID: xid, Topics: x.topics, UserData: []byte(c.racks[x.owner])})
+					c.roster = append(c.roster, kafka.VerifGroupMember{ID: xid, Topics: x.topics, UserData: x.userData})
 				}
 				c.cond.Broadcast()
 				break
